@@ -12,9 +12,12 @@ import (
 )
 
 type flowBuilder struct {
-	filterTree         internaltypes.FilterTreeI
-	flowReps           map[string]internaltypes.FlowRepI
-	foreignRoot        *EntryPoint
+	filterTree  internaltypes.FilterTreeI
+	flowReps    map[string]internaltypes.FlowRepI
+	foreignRoot *EntryPoint
+	// flows whose connections are currently being built/incorporated (guards
+	// against flows that reference each other)
+	incorporating      map[string]struct{}
 	nodeBuilder        *graphNodeBuilder
 	processorManager   *processors.ProcessorManager
 	resourceManagement *resources.ResourceManagement
@@ -31,6 +34,7 @@ func newFlowBuilder(filterTree internaltypes.FilterTreeI,
 		processorManager:   processorManager,
 		resourceManagement: resourceManagement,
 		flowReps:           flowReps,
+		incorporating:      make(map[string]struct{}),
 	}
 
 	builder.nodeBuilder = newGraphNodeBuilder(builder.flowReps, builder.processorManager)
@@ -254,6 +258,13 @@ func (fb *flowBuilder) incorporateFlow(flowName string, targetFlowDir *FlowDirec
 	if !exists {
 		return fmt.Errorf("flow '%s' not found", flowName)
 	}
+
+	// flows referencing each other would be incorporated into one another without end
+	if _, inProgress := fb.incorporating[flowName]; inProgress {
+		return fmt.Errorf("circular flow reference detected - flow '%s'", flowName)
+	}
+	fb.incorporating[flowName] = struct{}{}
+	defer delete(fb.incorporating, flowName)
 
 	// build connections from the source flow and add all to target FlowDirection
 	connections := flowRep.GetFlow().GetFlowConnections(targetFlowDir.flowType)
